@@ -49,6 +49,9 @@ struct Args {
     replay_dir: String,
     known: Option<String>,
     dump_hashes: Option<String>,
+    /// a reduced batch (a third of the seeded runs, a tenth of the labelled workload, a third of the
+    /// enumerated histories): used by the quick tier for the `combined` flavour
+    light: bool,
 }
 
 fn parse_args(a: &[String]) -> Result<Args, String> {
@@ -62,6 +65,7 @@ fn parse_args(a: &[String]) -> Result<Args, String> {
         replay_dir: "/verif/replays".into(),
         known: None,
         dump_hashes: None,
+        light: false,
     };
     let mut i = 0;
     while i < a.len() {
@@ -76,6 +80,11 @@ fn parse_args(a: &[String]) -> Result<Args, String> {
             "--replay-dir" => args.replay_dir = need(i)?,
             "--known" => args.known = Some(need(i)?),
             "--dump-hashes" => args.dump_hashes = Some(need(i)?),
+            "--light" => {
+                args.light = true;
+                i += 1;
+                continue;
+            }
             x => return Err(format!("unknown argument {x}")),
         }
         i += 2;
@@ -358,11 +367,17 @@ fn cmd_check(a: &[String]) -> i32 {
     // properties whose receivers run the full round-trip battery on every accepted record cost about
     // three times as much per run
     let heavy = matches!(prop.as_str(), "C03" | "C04" | "C05" | "C12");
-    let base_runs = args.runs.unwrap_or(if args.thorough { if heavy { 8_000 } else { 20_000 } } else { 1_500 });
+    let mut base_runs = args.runs.unwrap_or(if args.thorough { if heavy { 8_000 } else { 20_000 } } else { 1_500 });
+    if args.light {
+        base_runs = (base_runs / 3).max(1);
+    }
     let root = rng::derive(args.seed, &[fnv(&prop), fnv(flav)]);
     let mut jobs: Vec<Job> = (0..base_runs as u64).map(|i| Job::Seeded(rng::derive(root, &[i]))).collect();
     let n_seeded = jobs.len();
-    for it in workloads::items(&prop, args.thorough, root) {
+    for (k, it) in workloads::items(&prop, args.thorough, root).into_iter().enumerate() {
+        if args.light && k % 10 != 0 {
+            continue;
+        }
         jobs.push(Job::Workload(it));
     }
     let n_workload = jobs.len() - n_seeded;
@@ -370,7 +385,7 @@ fn cmd_check(a: &[String]) -> i32 {
     // C06: signer-fault enumeration along sampled histories — every signing call of slot 0 of every node
     let mut n_enum = 0usize;
     if prop == "C06" {
-        let sample = if args.thorough { 400 } else { 100 };
+        let sample = if args.thorough { 400 } else if args.light { 30 } else { 100 };
         let mut extra = Vec::new();
         for i in 0..sample.min(n_seeded) {
             if let Job::Seeded(seed) = jobs[i] {
